@@ -118,13 +118,17 @@ def _sibling(ctx, s, ver, sign, vb, vinfo, vt, vdisp, sb, sinfo, st, sdisp, eacc
                 contains_value(vdisp[3][1], eacc("tags")) if vdisp[3][1] else False,
                 contains_value(vdisp[4][1], lambda x: x[0] == "call" and x[1] == escaping.ESCAPE and contains_value(x[2][0], eacc("content"))) if vdisp[4][1] else False]
         okp = all(prov)
+        # the escaper spliced in under another name (its is_safe_char test runs inside the verifier): escaping happens, but
+        # is not attributable to one call
+        spliced = all(prov[:4]) and not prov[4] and any((i_["callee"] or "").endswith("::is_safe_char") for b_, i_ in ctx.E.an(ver).calls())
         s.add("S-ESCFLOW", ver, "verifier-arguments-own-fields", "pubkey,created_at,kind,tags,escape(content)", vinfo["sp"],
-              PROVED if okp else VIOLATION,
+              PROVED if okp else (UNDECIDED if spliced else VIOLATION),
               "the serialization is built from this event's own accessors; content passes through json_escape" if okp else
               "the verifier's serialization arguments are not (own pubkey, created_at, kind, tags, json_escape(own content)): %s" % prov, vb)
     if len(sdisp) == 5:
         okc = contains_value(sdisp[4][1], lambda x: x[0] == "call" and x[1] == escaping.ESCAPE) if sdisp[4][1] else False
-        s.add("S-ESCFLOW", sign, "signer-content-escaped", "escape(content)", sinfo["sp"], PROVED if okc else VIOLATION,
+        spliced_s = not okc and any((i_["callee"] or "").endswith("::is_safe_char") for b_, i_ in ctx.E.an(sign).calls())
+        s.add("S-ESCFLOW", sign, "signer-content-escaped", "escape(content)", sinfo["sp"], PROVED if okc else (UNDECIDED if spliced_s else VIOLATION),
               "the signer serializes json_escape(content)" if okc else "the signer serializes unescaped content", sb)
 
 
